@@ -157,14 +157,16 @@ class ClassInfo:
 
     @property
     def fields(self):
-        out = []
-        for bi in self.base_infos:
+        # dataclasses collect fields in reverse MRO order (for `class C(A, B)`: B's fields, then A's, then C's own);
+        # a field that is defined again keeps its original position and takes the new definition
+        out = {}
+        for bi in reversed(self.base_infos):
             if bi.dataclass or bi.is_namedtuple:
-                out.extend(bi.fields)
-        names = {f[0] for f in self.own_fields}
-        out = [f for f in out if f[0] not in names]
-        out.extend(self.own_fields)
-        return out
+                for f in bi.fields:
+                    out[f[0]] = f
+        for f in self.own_fields:
+            out[f[0]] = f
+        return list(out.values())
 
     def match_args(self):
         return [f[0] for f in self.fields if not (f[2] or self.kw_only)]
